@@ -312,11 +312,11 @@ def consistent_family(fn, args, sites):
 META = {
     "category": "other",
     "engine": "QN + OPS",
-    "technique": "def-use pairing of decomposition factors and their label lists per site (ast), freshness of block labels at every basis update, shared label-algebra rules of C03",
+    "technique": "abstract interpretation of canonicalise, _update_mps, single_sweep and the tangent-space schemes with bookkeeping events (which labels are stored with which factor on which bond, versioned label freshness); shared label-algebra rules of C03; def-use pairing for the remaining decomposition sites (ast)",
     "text": "Clause-only: decides that the quantum-number metadata is transformed and stored consistently with the tensors at every place that "
             "creates or combines bond labels (the mechanism that keeps amplitudes inside the sector). Whether a given Hamiltonian conserves the "
             "charge and whether numerical blocks are exactly zero is not decided."
             ' The sector mask and label-merge helpers (get_qn_mask, add_outer) are decided by abstract runs.',
     "note": "Decomposition sites are a frozen table (10 functions); a new svd_qn/eigh_qn call site stops the analysis until classified.",
-    "design_ref": "DESIGN.md 3.4, 3.9, 4 (C06)",
+    "design_ref": "DESIGN.md 3.4, 3.9, 4 (C06); as built: 9.1, 9.3, 9.8",
 }
